@@ -610,6 +610,9 @@ fn families(tier: &str) -> Vec<Vec<&'static str>> {
         // updates that re-send the value a field already has, together with a room move / a reference change
         vec!["key=1 set=1:0 room=2", "key=2 set=1:0,2:0 pet=3"],
         vec!["key=1 set=1:5", "key=1 set=1:5 room=2"],
+        // one target under two reference fields of the same row: "already referenced" is a fact about ONE field
+        vec!["key=1 pet=2", "key=1 add=2"],
+        vec!["key=1 pet=2", "key=1 pet=3", "key=1 add=2"],
     ];
     if tier != "quick" {
         f.push(vec!["key=1 set=1:0,2:0 room=2 add=3", "key=1 set=2:0 room=1", "key=1 set=1:0 pet=4"]);
